@@ -45,7 +45,28 @@ def _np_dtype(np, name):
   return np.dtype(NP_DTYPES[name])
 
 
-def build_program(prog, wsr):
+NEST_KEYS = ['z', 'a', 'm', 'b']       # NOT in sorted order: jax flattens dicts by sorted key, python iterates insertion
+
+
+def pack_state(nest, vals):
+  """The client step state as a pytree: a tuple, a dict whose keys are not in sorted order, or a
+  nested mix of dict / tuple / list with None (empty subtree) entries."""
+  if nest == 'dict':
+    return {NEST_KEYS[k]: v for k, v in enumerate(vals)}
+  if nest == 'nested':
+    return {'q': [{NEST_KEYS[k]: (v, None)} for k, v in enumerate(vals)], 'p': None}
+  return tuple(vals)
+
+
+def unpack_state(nest, st, n):
+  if nest == 'dict':
+    return [st[NEST_KEYS[k]] for k in range(n)]
+  if nest == 'nested':
+    return [st['q'][k][NEST_KEYS[k]][0] for k in range(n)]
+  return list(st)
+
+
+def build_program(prog, wsr, nest='tuple'):
   import jax.numpy as jnp
   leaves = prog['leaves']
 
@@ -59,7 +80,7 @@ def build_program(prog, wsr):
       else:
         v = lp['ia'] * shared['s'][k] + lp['ib'] * cin[k]
       out.append(v)
-    return tuple(out)
+    return pack_state(nest, out)
 
   def inv_term(mode, coef, bsum):
     if mode == 1:
@@ -70,7 +91,8 @@ def build_program(prog, wsr):
 
   def client_step(state, batch):
     bsum = jnp.sum(batch['x'])
-    bn = jnp.sum(batch['y'])
+    bn = jnp.sum(batch['y'], dtype=jnp.int32)      # (dtype-stable also under jax_enable_x64)
+    state = unpack_state(nest, state, len(leaves))
     new = []
     for k, lp in enumerate(leaves):
       s = state[k]
@@ -90,18 +112,19 @@ def build_program(prog, wsr):
           c = c + t
         v = lp['a'] * s + c
       new.append(v)
-    new = tuple(new)
+    packed = pack_state(nest, new)
     if not wsr:
-      return new
+      return packed
     r = prog['res']
     r0 = r['ru'] * bsum + r['rv']
     t = inv_term(r['rinv'], r['rw'], bsum)
     if t is not None:
       r0 = r0 + t
-    return new, {'r0': r0, 'leaf': new[r['rleaf']]}
+    return packed, {'r0': r0, 'leaf': new[r['rleaf']]}
 
   def client_final(shared, state):
     out = {}
+    state = unpack_state(nest, state, len(leaves))
     for k, lp in enumerate(leaves):
       if lp['final'] == 0:
         v = state[k]
@@ -128,6 +151,7 @@ def build_inputs(case, use_jax):
   sform = case.get('scalar_form', 'array')
 
   def mk(name, vals, shape, dt, scalar_ok=False):
+    vals = [float(v) if isinstance(v, str) else v for v in vals]      # 'inf' / '-inf' / 'nan' on REAL positions
     a = np.array(vals, dtype=_np_dtype(np, dt)).reshape(shape)
     if scalar_ok and list(shape) == [] and sform != 'array' and dt in ('f32', 'i32'):
       obj = a[()] if sform == 'np' else a[()].item()     # np.float32(..) / python float
@@ -144,8 +168,13 @@ def build_inputs(case, use_jax):
                          for k, lp in enumerate(leaves))}
   clients = []
   for cid, batches, cin in case['clients']:
-    bl = [{'x': mk('client %r batch %d x' % (cid, j), b[0], [len(b[0])], 'f32'),
-           'y': mk('client %r batch %d y' % (cid, j), b[1], [len(b[1])], 'i32')} for j, b in enumerate(batches)]
+    bl = []
+    for j, b in enumerate(batches):
+      x = mk('client %r batch %d x' % (cid, j), b[0], [len(b[0])], 'f32')
+      y = mk('client %r batch %d y' % (cid, j), b[1], [len(b[1])], 'i32')
+      order = case.get('batch_keys', 'xy')
+      yx = order == 'yx' or (order == 'mixed' and (j + len(clients)) % 2 == 1)
+      bl.append({'y': y, 'x': x} if yx else {'x': x, 'y': y})       # insertion order of the dict keys
     cf = case.get('cin_form', 'tuple')
     if cf == 'empty':
       ci = ()
@@ -250,9 +279,15 @@ def container_snapshot(shared, clients):
   return snap
 
 
+SENTINELS = {900: None, 901: -1, 902: False, 903: (None,)}
+
+
 def _ext_id(case, cid):
   """The client id as given to fedjax: any hashable.  Id 0 is delivered as the FALSY value
-  of the kind: 0, b'', '', ()."""
+  of the kind: 0, b'', '', ().  Codes 900.. are legal ids that collide with values the code
+  uses internally for padding / absence: None, -1, False, (None,)."""
+  if cid in SENTINELS:
+    return SENTINELS[cid]
   kind = case.get('idkind', 'int')
   if kind == 'bytes':
     return b'c%d' % cid if cid else b''
@@ -264,21 +299,20 @@ def _ext_id(case, cid):
 
 
 def _int_id(case, x):
-  kind = case.get('idkind', 'int')
+  """Back to the case's integer id.  A yielded None is the id of a padding client (None)
+  unless the case has a real client whose id IS None (then code 900: the multiset of ids
+  still tells a leaked padding client from the real one)."""
+  back = {}
+  for c in case['clients']:
+    e = _ext_id(case, c[0])
+    back[(type(e).__name__, e)] = c[0]
   try:
-    if x is None:
-      return None
-    if kind == 'bytes' and isinstance(x, bytes):
-      return 0 if x == b'' else int(x[1:]) if x[:1] == b'c' else repr(x)
-    if kind == 'str' and isinstance(x, str):
-      return 0 if x == '' else int(x[1:]) if x[:1] == 'c' else repr(x)
-    if kind == 'tuple' and isinstance(x, tuple):
-      return 0 if x == () else x[0] if len(x) == 1 and isinstance(x[0], int) else repr(x)
-    if kind == 'int' and isinstance(x, int) and not isinstance(x, bool):
-      return x
-  except ValueError:
+    k = (type(x).__name__, x)
+    if k in back:
+      return back[k]
+  except TypeError:
     pass
-  return repr(x)
+  return None if x is None else repr(x)
 
 
 def _canon_leaf(np, x):
@@ -496,7 +530,7 @@ def run_case(case):
   import numpy as np
   import jax
   wsr = bool(case['wsr'])
-  prog_fns = build_program(case['prog'], wsr)
+  prog_fns = build_program(case['prog'], wsr, case.get('state_nest', 'tuple'))
   order = case.get('order') or ['jit', 'debug', 'pmap']
   res, first = {}, None
   for be in order:
@@ -710,11 +744,14 @@ def handle(case):
 def main():
   k = int(sys.argv[1])
   _setup(k)
+  if len(sys.argv) > 2 and sys.argv[2] == 'x64':       # global configuration flag, set before jax is imported
+    os.environ['JAX_ENABLE_X64'] = '1'
   out = os.fdopen(os.dup(1), 'w')
   os.dup2(2, 1)       # anything the libraries print on stdout goes to stderr
   import jax
   import fedjax  # noqa: F401
-  out.write('@@' + json.dumps({'ready': True, 'devices': jax.local_device_count(), 'jax': jax.__version__}) + '\n')
+  out.write('@@' + json.dumps({'ready': True, 'devices': jax.local_device_count(), 'jax': jax.__version__,
+                               'x64': bool(jax.config.jax_enable_x64)}) + '\n')
   out.flush()
   for line in sys.stdin:
     line = line.strip()
